@@ -152,7 +152,7 @@ theorem odd_stream_getElem (X : List R) (m k : Nat) (hm : 1 ≤ m)
     `half` of the full `4M-1`-tap FIR applied to the zero-extended input at position `n = 2i+1` (the newest sample
     consumed for that output); the centre tap sits over input sample `2i+2-2M = 2(i-(M-1))`. -/
 theorem decSpec_conv (hf : R → R) (taps X : List R) (hm : 1 ≤ taps.length) (i : Nat) (hi : i < X.length / 2) :
-    (decSpec (ringOps hf) taps (List.replicate (taps.length - 1) 0) (List.replicate (2 * taps.length - 1) 0) X)[i]'
+    (hbfDecSpec (ringOps hf) taps (List.replicate (taps.length - 1) 0) (List.replicate (2 * taps.length - 1) 0) X)[i]'
       (by rw [decSpec_length _ _ _ _ _ hm (by simp) (by simp)]; exact hi) =
     hf (firAt taps (zext X) (2 * i + 1)) := by
   have hol := odds_length X
@@ -204,7 +204,7 @@ theorem int_stream_getElem (X : List R) (m k : Nat)
     at odd positions) at position `m`: even outputs are the interpolated ones, odd outputs `2i+1` reproduce input
     sample `i+1-M` through the centre tap. -/
 theorem intSpec_conv (hf : R → R) (taps X : List R) (hm : 1 ≤ taps.length) (m : Nat) (hmx : m < 2 * X.length) :
-    (intSpec (ringOps hf) taps (List.replicate (2 * taps.length - 1) 0) X)[m]'
+    (hbfIntSpec (ringOps hf) taps (List.replicate (2 * taps.length - 1) 0) X)[m]'
       (by rw [intSpec_length _ _ _ _ hm (by simp)]; exact hmx) =
     firAt taps (zstuff X) m := by
   obtain ⟨g1, g2⟩ := intSpec_getElem (ringOps hf) taps (List.replicate (2 * taps.length - 1) 0) X hm (by simp)
@@ -212,9 +212,9 @@ theorem intSpec_conv (hf : R → R) (taps X : List R) (hm : 1 ≤ taps.length) (
   rw [firAt_eq taps hm]
   rcases Nat.mod_two_eq_zero_or_one m with hj2 | hj2
   · have e : m = 2 * (m / 2) := by omega
-    have : (intSpec (ringOps hf) taps (List.replicate (2 * taps.length - 1) 0) X)[m]'
+    have : (hbfIntSpec (ringOps hf) taps (List.replicate (2 * taps.length - 1) 0) X)[m]'
         (by rw [intSpec_length _ _ _ _ hm (by simp)]; exact hmx) =
-      (intSpec (ringOps hf) taps (List.replicate (2 * taps.length - 1) 0) X)[2 * (m / 2)]'
+      (hbfIntSpec (ringOps hf) taps (List.replicate (2 * taps.length - 1) 0) X)[2 * (m / 2)]'
         (by rw [intSpec_length _ _ _ _ hm (by simp)]; omega) := by congr 1
     rw [this, g1]
     have hwl : (List.take (2 * taps.length)
@@ -236,9 +236,9 @@ theorem intSpec_conv (hf : R → R) (taps X : List R) (hm : 1 ≤ taps.length) (
       omega
     rw [e1, e2]; ring
   · have e : m = 2 * (m / 2) + 1 := by omega
-    have : (intSpec (ringOps hf) taps (List.replicate (2 * taps.length - 1) 0) X)[m]'
+    have : (hbfIntSpec (ringOps hf) taps (List.replicate (2 * taps.length - 1) 0) X)[m]'
         (by rw [intSpec_length _ _ _ _ hm (by simp)]; exact hmx) =
-      (intSpec (ringOps hf) taps (List.replicate (2 * taps.length - 1) 0) X)[2 * (m / 2) + 1]'
+      (hbfIntSpec (ringOps hf) taps (List.replicate (2 * taps.length - 1) 0) X)[2 * (m / 2) + 1]'
         (by rw [intSpec_length _ _ _ _ hm (by simp)]; omega) := by congr 1
     rw [this, g2, int_stream_getElem]
     have z1 : ∑ l ∈ range taps.length, taps.getD l 0 * zstuff X (m - 2 * l) = 0 := by
